@@ -23,7 +23,7 @@ func init() {
 	register(&Property{
 		ID: "C02",
 		Rule: "stage A: every string up to length L over 39 symbols (11 special bytes + 28 verb tokens) and PRNG mutations of well-formed lines go through ParseLine + Text/Target/Public " +
-			"under recover (a panic there kills the receive goroutine); stage B: child processes feed probes (every built-in handler verb x 0..8 odd parameters, raw byte strings) " +
+			"under recover (a panic there kills the receive goroutine), then Go's native coverage-guided fuzzer on the same target for a fixed execution count, recording every panic site instead of stopping at the first; stage B: child processes feed probes (every built-in handler verb x 0..8 odd parameters, raw byte strings) " +
 			"through a live connection with tracking on and off, each followed by numbered well-formed lines and a marker; judged: process survival (crash journal), marker answered, " +
 			"numbered lines in order, and probe either logged as rejected or dispatched exactly once to a handler for its verb. distinct_nontrivial = distinct (stage, verb, arity, parameter-shape / parser outcome) classes.",
 		Assumptions: []string{
@@ -38,6 +38,11 @@ func init() {
 				n = 12
 			}
 			bs = append(bs, splitBatches("mut", n, false, 1, map[string]string{"mode": "mut"})...)
+			execs := "300000"
+			if tier == "thorough" {
+				execs = "20000000"
+			}
+			bs = append(bs, Batch{Name: "gofuzz", Kind: "gofuzz", Weight: 6, Args: map[string]string{"pkg": "fuzzc02", "target": "FuzzParseLine", "execs": execs, "parallel": "6"}})
 			for _, tr := range []string{"0", "1"} {
 				for _, procs := range []int{1, 4} {
 					bs = append(bs, Batch{Name: fmt.Sprintf("live-t%s-p%d", tr, procs), Args: map[string]string{"mode": "live", "tracking": tr}, Race: true, Procs: procs})
